@@ -143,6 +143,13 @@ def module_resolver(idx: Index, relpath: str):
                 v = _ast.literal_eval(node)
                 return frozenset(v) if isinstance(v, set) else v
             except Exception:
+                pass
+            # a module-level constant computed from other constants (set(TABLE), {**A, **B}, ...): fold it
+            try:
+                from ..consteval import Folder as _Folder, Undecidable as _Und, Raised as _Rai
+                v = _Folder(resolver=resolve).expr(node)
+                return v
+            except Exception:
                 return None
         from ..index import ModuleInfo
         if (r is None or (isinstance(r, ModuleInfo) and r.external)) and name in mod.imports and not mod.imports[name].startswith("tangelo"):
